@@ -835,6 +835,10 @@ def wcall(w, op):
         return w.truncate_by_index(op["start"], _stopv(op["stop"]))
     if k == "restore_original":
         return w.restore_original()
+    if k == "poke":                        # the caller writes into the array get() handed out
+        g = w.get()
+        g[1][op["i"]] += fl(op["d"])
+        return None
     if k == "recreate":
         c = dict(op)
         cls = getattr(rfa_mod, RFA_CLASSES[op["strategy"]])
